@@ -1625,3 +1625,541 @@ Proof.
       rewrite Ecd1. reflexivity.
 Qed.
 End Commute2.
+
+Section Commute3.
+
+Variable gm : str -> str -> bool.
+Variable gr : bool.
+
+(* Ok/Ok up to the order of the tables *)
+Definition both_equiv (a b : res state) : Prop :=
+  match a, b with
+  | Ok s1, Ok s2 => state_equiv s1 s2
+  | Err m1, Err m2 => m1 = m2
+  | _, _ => False
+  end.
+
+Lemma state_equiv_refl s : state_equiv s s.
+Proof. repeat split; auto. Qed.
+
+Lemma set_claim_swap st p1 c1 p2 c2 :
+  p1 <> p2 ->
+  state_equiv (set_claim (set_claim st p1 c1) p2 c2) (set_claim (set_claim st p2 c2) p1 c1).
+Proof.
+  intros Hne. unfold state_equiv, set_claim. cbn [claims loose trees steps globs]. repeat split; auto.
+  - intros q. cbn [lookup].
+    destruct (str_eqb q p2) eqn:E2, (str_eqb q p1) eqn:E1; try reflexivity.
+    apply str_eqb_eq in E1, E2. congruence.
+  - intros q. unfold remove_str.
+    induction (loose st) as [|x l IH]; [reflexivity|]. cbn [filter].
+    destruct (negb (str_eqb p1 x)) eqn:A, (negb (str_eqb p2 x)) eqn:B; cbn [filter mem_str];
+      rewrite ?A, ?B; cbn [mem_str]; rewrite ?IH; reflexivity.
+Qed.
+
+(* The amendment of one product, as a function of what it finds. *)
+Lemma amend1_sem_held s r p st :
+  require_step st (CStep s) = Ok tt -> check_decl st (WNode (CStep s)) p r = Ok false ->
+  amend1_sem gm s r p st = Ok st.
+Proof. intros H1 H2. unfold amend1_sem. rewrite H1. cbn [bind]. rewrite H2. reflexivity. Qed.
+
+Lemma lookup_set_claim_other st p cl q :
+  q <> p -> lookup q (claims (set_claim st p cl)) = lookup q (claims st).
+Proof.
+  intros H. cbn [claims set_claim lookup]. destruct (str_eqb q p) eqn:E; [|reflexivity].
+  apply str_eqb_eq in E. contradiction.
+Qed.
+
+Lemma check_decl_set_claim_other st p cl w q r :
+  q <> p -> check_decl (set_claim st p cl) w q r = check_decl st w q r.
+Proof. intros H. unfold check_decl. now rewrite lookup_set_claim_other. Qed.
+
+Lemma mem_remove_other p q l : q <> p -> mem_str q (remove_str p l) = mem_str q l.
+Proof.
+  intros H. unfold remove_str. induction l as [|x l IH]; [reflexivity|]. cbn [filter mem_str].
+  destruct (str_eqb p x) eqn:E; cbn [negb mem_str].
+  - apply str_eqb_eq in E. subst x. destruct (str_eqb q p) eqn:E2; [apply str_eqb_eq in E2; contradiction|].
+    cbn. exact IH.
+  - now rewrite IH.
+Qed.
+
+Lemma declare_file_set_claim_other c0 r st p cl q :
+  q <> p -> (forall t, c0 <> CTree t) ->
+  declare_file false c0 r (set_claim st p cl) q =
+  match declare_file false c0 r st q with
+  | Ok _ => Ok (set_claim (set_claim st p cl) q (mkClaim r c0))
+  | Err m => Err m
+  end.
+Proof.
+  intros Hne Hc. unfold declare_file.
+  destruct (role_eqb r RVolatile && ends_with_c SLASH q); [reflexivity|].
+  change (find_owner false (set_claim st p cl) q) with (find_owner false st q).
+  destruct c0 as [|l|t]; [| |exfalso; eapply Hc; eauto].
+  - destruct (find_owner false st q) as [[[t tc]|]|m]; cbn [bind]; try reflexivity.
+    + destruct (role_eqb r RStatic); reflexivity.
+    + destruct (is_prefix stepup_prefix q); [reflexivity|]. destruct (bad_name q); [reflexivity|].
+      rewrite (lookup_set_claim_other st p cl q Hne). destruct (lookup q (claims st)); [reflexivity|].
+      cbn [loose set_claim]. rewrite (mem_remove_other p q _ Hne).
+      destruct (role_eqb r RVolatile && mem_str q (loose st)); reflexivity.
+  - destruct (find_owner false st q) as [[[t tc]|]|m]; cbn [bind]; try reflexivity.
+    + destruct (role_eqb r RStatic); reflexivity.
+    + destruct (is_prefix stepup_prefix q); [reflexivity|]. destruct (bad_name q); [reflexivity|].
+      rewrite (lookup_set_claim_other st p cl q Hne). destruct (lookup q (claims st)); [reflexivity|].
+      cbn [loose set_claim]. rewrite (mem_remove_other p q _ Hne).
+      destruct (role_eqb r RVolatile && mem_str q (loose st)); reflexivity.
+Qed.
+
+(* What an accepted single-product amendment does. *)
+Lemma amend1_accepted s r p st :
+  accepted (amend1_sem gm s r p st) = true ->
+  require_step st (CStep s) = Ok tt /\
+  ((check_decl st (WNode (CStep s)) p r = Ok false /\ amend1_sem gm s r p st = Ok st) \/
+   (check_decl st (WNode (CStep s)) p r = Ok true /\ glob_check gm (globs st) s [p] = Ok tt /\
+    amend1_sem gm s r p st = Ok (set_claim st p (mkClaim r (CStep s))) /\
+    declare_file false (CStep s) r st p = Ok (set_claim st p (mkClaim r (CStep s))))).
+Proof.
+  unfold amend1_sem. destruct (require_step st (CStep s)) as [[]|]; cbn [bind accepted]; [|discriminate].
+  destruct (check_decl st (WNode (CStep s)) p r) as [[|]|]; cbn [bind accepted]; [| |discriminate].
+  - destruct (glob_check gm (globs st) s [p]) as [[]|]; cbn [bind accepted]; [|discriminate].
+    destruct (declare_file false (CStep s) r st p) as [st2|] eqn:E; cbn [accepted]; [|discriminate].
+    intros _. destruct (declare_file_ok_inv _ _ _ _ _ (step_not_tree s) E) as [-> _].
+    split; [reflexivity|]. right. auto.
+  - intros _. split; [reflexivity|]. left. auto.
+Qed.
+
+(* Two amended products (output / volatile) of any steps: rejected in both orders with the same
+   structured message, or accepted in both orders with equal final states. *)
+Theorem product_product_commute st s1 r1 p1 s2 r2 p2 :
+  Inv gm gr st -> product_role r1 = true -> product_role r2 = true ->
+  accepted (step gm false gr st (amend1 s1 r1 p1)) = true ->
+  accepted (step gm false gr st (amend1 s2 r2 p2)) = true ->
+  both_equiv (run gm false gr st [amend1 s1 r1 p1; amend1 s2 r2 p2])
+             (run gm false gr st [amend1 s2 r2 p2; amend1 s1 r1 p1]).
+Proof.
+  intros HI Hr1 Hr2 H1 H2. rewrite !run2.
+  rewrite !(amend1_spec gm gr _ _ _ st) in * by assumption.
+  destruct (amend1_accepted _ _ _ _ H1) as [Q1 [[C1 S1]|[C1 [G1 [S1 D1]]]]];
+  destruct (amend1_accepted _ _ _ _ H2) as [Q2 [[C2 S2]|[C2 [G2 [S2 D2]]]]];
+  rewrite S1, S2; cbn [bind]; rewrite !amend1_spec by assumption.
+  - (* both held *) rewrite S1, S2. apply state_equiv_refl.
+  - (* 1 held, 2 new *)
+    rewrite S2. 
+    assert (Hne : p1 <> p2).
+    { intros ->. apply check_decl_true_none in C2. apply check_decl_false_held in C1.
+      apply (lookup_in_nodup _ _ _ (inv_uniq _ _ _ HI)) in C1. congruence. }
+    unfold amend1_sem. change (require_step (set_claim st p2 (mkClaim r2 (CStep s2))) (CStep s1))
+      with (require_step st (CStep s1)). rewrite Q1. cbn [bind].
+    rewrite check_decl_set_claim_other by assumption. rewrite C1. apply state_equiv_refl.
+  - (* 1 new, 2 held *)
+    rewrite S1.
+    assert (Hne : p2 <> p1).
+    { intros ->. apply check_decl_true_none in C1. apply check_decl_false_held in C2.
+      apply (lookup_in_nodup _ _ _ (inv_uniq _ _ _ HI)) in C2. congruence. }
+    unfold amend1_sem. change (require_step (set_claim st p1 (mkClaim r1 (CStep s1))) (CStep s2))
+      with (require_step st (CStep s2)). rewrite Q2. cbn [bind].
+    rewrite check_decl_set_claim_other by assumption. rewrite C2. apply state_equiv_refl.
+  - (* both new *)
+    unfold amend1_sem.
+    change (require_step (set_claim st p1 (mkClaim r1 (CStep s1))) (CStep s2)) with (require_step st (CStep s2)).
+    change (require_step (set_claim st p2 (mkClaim r2 (CStep s2))) (CStep s1)) with (require_step st (CStep s1)).
+    rewrite Q1, Q2. cbn [bind].
+    destruct (str_eqb p1 p2) eqn:Ep.
+    + (* the same path: a collision, whichever comes first *)
+      apply str_eqb_eq in Ep. subst p2.
+      unfold check_decl. cbn [claims set_claim lookup]. rewrite str_eqb_refl. cbn [c_role c_by].
+      destruct (role_eqb r1 r2 && creator_eqb (CStep s1) (CStep s2)) eqn:Esame.
+      * (* the same declaration twice: a no-op in both orders *)
+        apply andb_true_iff in Esame as [Ea Eb]. apply role_eqb_eq in Ea. apply creator_eqb_eq in Eb.
+        inversion Eb; subst. rewrite role_eqb_refl, creator_eqb_refl. cbn [andb bind both_equiv].
+        apply state_equiv_refl.
+      * assert (Esame' : role_eqb r2 r1 && creator_eqb (CStep s2) (CStep s1) = false).
+        { destruct (role_eqb r2 r1 && creator_eqb (CStep s2) (CStep s1)) eqn:E; [|reflexivity].
+          apply andb_true_iff in E as [Ea Eb]. apply role_eqb_eq in Ea. apply creator_eqb_eq in Eb.
+          inversion Eb; subst. now rewrite role_eqb_refl, creator_eqb_refl in Esame. }
+        rewrite Esame'. rewrite !decl_of_node_step. cbn [bind both_equiv]. 
+        apply (collision_message_symmetric p1 r1 (CStep s1) r2 (CStep s2)); apply decl_of_node_step.
+    + (* different paths: independent *)
+      assert (Hne : p1 <> p2) by (now apply str_eqb_false).
+      assert (Hne' : p2 <> p1) by congruence.
+      rewrite !check_decl_set_claim_other by assumption. rewrite C1, C2. cbn [bind].
+      change (globs (set_claim st p1 (mkClaim r1 (CStep s1)))) with (globs st).
+      change (globs (set_claim st p2 (mkClaim r2 (CStep s2)))) with (globs st).
+      rewrite G1, G2. cbn [bind].
+      rewrite !declare_file_set_claim_other by (auto using step_not_tree).
+      rewrite D1, D2. cbn [both_equiv]. now apply set_claim_swap.
+Qed.
+
+End Commute3.
+
+Section Commute4.
+
+Variable gm : str -> str -> bool.
+Variable gr : bool.
+
+(* declare_static_files(creator, [p]) *)
+Definition static1_sem (c2 : creator) (p : str) (st : state) : res state :=
+  bind (require_step st c2) (fun _ =>
+  bind (static_declarer false c2 st p) (fun dcl =>
+  bind (check_decl st (WNode dcl) p RStatic) (fun is_new =>
+  if is_new then declare_file false dcl RStatic st p else Ok st))).
+
+Lemma static1_spec c2 p st : step gm false gr st (RqStatic c2 [p]) = static1_sem c2 p st.
+Proof.
+  cbn [step]. unfold static1_sem. destruct (require_step st c2); cbn [bind]; [|reflexivity].
+  unfold declare_static_files. cbn [sort_uniq fold_right insert_uniq static_checks].
+  rewrite static_check_unfold.
+  destruct (static_declarer false c2 st p) as [dcl|]; cbn [bind]; [|reflexivity].
+  destruct (check_decl st (WNode dcl) p RStatic) as [[|]|]; cbn [bind fold_res fst snd]; try reflexivity.
+  destruct (declare_file false dcl RStatic st p); reflexivity.
+Qed.
+
+(* an accepted static declaration of one path *)
+Lemma declare_static_ok_inv dcl st p st2 :
+  declare_file false dcl RStatic st p = Ok st2 ->
+  st2 = set_claim st p (mkClaim RStatic dcl) /\
+  is_prefix stepup_prefix p = false /\ bad_name p = None /\ lookup p (claims st) = None /\
+  ((forall t, dcl <> CTree t) -> find_owner false st p = Ok None).
+Proof.
+  intros H. unfold declare_file in H. change (role_eqb RStatic RVolatile) with false in H. cbn [andb] in H.
+  destruct dcl as [|l|t]; cbn [bind] in H.
+  - dres H. apply owner_guard_ok in E. inversion H. repeat split; auto.
+  - dres H. apply owner_guard_ok in E. inversion H. repeat split; auto.
+  - dres H. inversion H. repeat split; auto. intros Hc. exfalso. eapply Hc; eauto.
+Qed.
+
+Lemma static_declarer_cases c2 st p dcl :
+  static_declarer false c2 st p = Ok dcl ->
+  (dcl = c2 /\ ((forall t, c2 <> CTree t) -> find_owner false st p = Ok None)) \/
+  (exists t, dcl = CTree t /\ find_owner false st p = Ok (Some (t, c2)) /\ forall t', c2 <> CTree t').
+Proof.
+  unfold static_declarer. destruct c2 as [|l|t0].
+  - destruct (find_owner false st p) as [[[t tc]|]|m]; cbn [bind]; try discriminate.
+    + destruct (creator_eqb tc CRoot) eqn:E; [|discriminate]. apply creator_eqb_eq in E. subst.
+      intros H. inversion H. right. exists t. repeat split; auto. intros t' Hx. discriminate Hx.
+    + intros H. inversion H. left. auto.
+  - destruct (find_owner false st p) as [[[t tc]|]|m]; cbn [bind]; try discriminate.
+    + destruct (creator_eqb tc (CStep l)) eqn:E; [|discriminate]. apply creator_eqb_eq in E. subst.
+      intros H. inversion H. right. exists t. repeat split; auto. intros t' Hx. discriminate Hx.
+    + intros H. inversion H. left. auto.
+  - intros H. inversion H. left. split; [reflexivity|]. intros Hc. exfalso. eapply Hc; eauto.
+Qed.
+
+Lemma owners_tree_state c d st p :
+  owners false (tree_state c d st) p =
+  (if is_prefix d p then [(d, c)] else []) ++ owners false st p.
+Proof.
+  unfold owners, probe. cbn [trees tree_state filter fst]. destruct (is_prefix d p); reflexivity.
+Qed.
+
+Lemma find_owner_tree_state_not_under c d st p :
+  is_prefix d p = false -> find_owner false (tree_state c d st) p = find_owner false st p.
+Proof. intros H. unfold find_owner. rewrite owners_tree_state, H. reflexivity. Qed.
+
+Lemma find_owner_tree_state_under c d st p :
+  is_prefix d p = true -> find_owner false st p = Ok None ->
+  find_owner false (tree_state c d st) p = Ok (Some (d, c)).
+Proof.
+  intros H Hn. unfold find_owner in *. rewrite owners_tree_state, H.
+  destruct (owners false st p) as [|x [|y l]]; [reflexivity|discriminate|discriminate].
+Qed.
+
+Lemma lookup_handover_under d cls p cl :
+  NoDup (map fst cls) -> In (p, cl) cls -> is_prefix d p = true ->
+  lookup p (handover d cls) = Some (mkClaim (c_role cl) (CTree d)).
+Proof.
+  intros Hnd Hin Hp. apply lookup_in_nodup; [now rewrite handover_keys|].
+  unfold handover. apply in_map_iff. exists (p, cl). cbn. now rewrite Hp.
+Qed.
+
+Definition static_tail (c0 : creator) (st : state) (p : str) : res state :=
+  if is_prefix stepup_prefix p then Err (MStepupFile p) else
+  match bad_name p with Some m => Err m | None =>
+  match lookup p (claims st) with
+  | Some _ => Err (MNodeExists (s2l "file:" ++ p))
+  | None => Ok (set_claim st p (mkClaim RStatic c0))
+  end end.
+
+Lemma declare_file_tree_static t st p :
+  declare_file false (CTree t) RStatic st p = static_tail (CTree t) st p.
+Proof. reflexivity. Qed.
+
+Lemma declare_file_nontree_static c0 st p :
+  (forall t, c0 <> CTree t) -> find_owner false st p = Ok None ->
+  declare_file false c0 RStatic st p = static_tail c0 st p.
+Proof.
+  intros Hc Ho. unfold declare_file. change (role_eqb RStatic RVolatile) with false. cbn [andb].
+  destruct c0 as [|l|t]; [| |exfalso; eapply Hc; eauto]; rewrite Ho; reflexivity.
+Qed.
+
+Lemma static_declarer_nontree c2 st p :
+  (forall t, c2 <> CTree t) ->
+  static_declarer false c2 st p =
+  bind (find_owner false st p) (fun o =>
+    match o with
+    | None => Ok c2
+    | Some (t, tc) => if creator_eqb tc c2 then Ok (CTree t) else Err (MTreeFile t p)
+    end).
+Proof. intros Hc. destruct c2 as [| |t]; [reflexivity|reflexivity|exfalso; eapply Hc; eauto]. Qed.
+
+Lemma tree_decide_new_nosub c path st :
+  tree_decide c path st = TNew ->
+  existsb (fun tc : str * creator => is_prefix (with_slash path) (fst tc)) (trees st) = false.
+Proof.
+  unfold tree_decide.
+  destruct (require_step st c); [|discriminate].
+  destruct (str_eqb path stepup_dir || is_prefix stepup_prefix path); [discriminate|]. cbv zeta.
+  destruct (str_eqb (with_slash path) [46; SLASH] || str_eqb (with_slash path) []); [discriminate|].
+  destruct (str_eqb (with_slash path) [SLASH]); [discriminate|].
+  destruct (find_owner false st (with_slash path)) as [[[t tc]|]|m]; try discriminate.
+  - destruct (creator_eqb tc c); [discriminate|]. destruct (str_eqb t (with_slash path)); [|discriminate].
+    destruct (phrase_of tc) as [x|]; [destruct (phrase_of c) as [y|]|]; try discriminate.
+    destruct (sort2_str x y). discriminate.
+  - destruct (existsb (fun tc : str * creator => is_prefix (with_slash path) (fst tc)) (trees st)); [discriminate|].
+    reflexivity.
+Qed.
+
+Lemma step_tree ow st c path : step gm ow gr st (RqTree c path) = register_tree ow c path st.
+Proof. reflexivity. Qed.
+
+(* Static tree versus static file (any creators): same result in both orders; in particular a
+   file under the tree declared by another creator is rejected with the tree/file message in
+   both orders, and a file of the tree's own creator ends up owned by the tree in both orders. *)
+Theorem tree_static_commute st c path c2 p :
+  Inv gm gr st ->
+  filter (is_prefix (with_slash path)) (loose st) = [] ->
+  accepted (step gm false gr st (RqTree c path)) = true ->
+  accepted (step gm false gr st (RqStatic c2 [p])) = true ->
+  both (run gm false gr st [RqTree c path; RqStatic c2 [p]])
+       (run gm false gr st [RqStatic c2 [p]; RqTree c path]).
+Proof.
+  intros HI Hloose H1 H2. rewrite !run2. rewrite (static1_spec c2 p st) in H2. rewrite (static1_spec c2 p st).
+  rewrite step_tree in H1. rewrite step_tree. rewrite (register_tree_decide c path st) in *.
+  set (d := with_slash path) in *.
+  unfold static1_sem in H2 at 1.
+  destruct (require_step st c2) as [[]|] eqn:Ers; cbn [bind accepted] in H2; [|discriminate H2].
+  destruct (static_declarer false c2 st p) as [dcl|] eqn:Edcl; cbn [bind accepted] in H2; [|discriminate H2].
+  destruct (check_decl st (WNode dcl) p RStatic) as [b|] eqn:Ecd; cbn [bind accepted] in H2; [|discriminate H2].
+  assert (Hsem : static1_sem c2 p st = if b then declare_file false dcl RStatic st p else Ok st).
+  { unfold static1_sem. rewrite Ers. cbn [bind]. rewrite Edcl. cbn [bind]. rewrite Ecd. reflexivity. }
+  rewrite Hsem.
+  assert (Hc2 : forall t, c2 <> CTree t).
+  { intros t ->. unfold require_step in Ers. cbn in Ers. discriminate Ers. }
+  destruct (tree_decide c path st) eqn:ED; [| |cbn in H1; discriminate H1].
+  - (* the tree request is a no-op *)
+    cbn [bind]. rewrite (static1_spec c2 p st), Hsem.
+    destruct b.
+    + destruct (declare_file false dcl RStatic st p) as [st2|] eqn:Edf; cbn [accepted] in H2; [|discriminate H2].
+      cbn [bind]. destruct (declare_static_ok_inv _ _ _ _ Edf) as [-> _].
+      rewrite step_tree, register_tree_decide, (tree_decide_noop_set_claim _ _ _ _ _ ED). reflexivity.
+    + cbn [bind]. rewrite step_tree, register_tree_decide, ED. reflexivity.
+  - (* a new tree *)
+    fold d. rewrite Hloose, declare_static_files_nil. cbn [bind].
+    rewrite (static1_spec c2 p _).
+    destruct (tree_decide_new_facts _ _ _ ED) as [Hnooff Hown]. fold d in Hnooff, Hown.
+    pose proof (tree_decide_new_nosub _ _ _ ED) as Hnosub. fold d in Hnosub.
+    unfold static1_sem.
+    assert (Ers1 : require_step (tree_state c d st) c2 = Ok tt) by exact Ers.
+    rewrite Ers1. cbn [bind]. rewrite (static_declarer_nontree c2 _ p Hc2).
+    (* what the tree does after the static declaration *)
+    assert (Hafter : forall cl,
+              lookup p (claims st) = None ->
+              step gm false gr (set_claim st p cl) (RqTree c path) =
+              if is_prefix d p && offending c (p, cl)
+              then (if negb (role_eqb (c_role cl) RStatic) then Err (MTreeProduct d p) else Err (MTreeFile d p))
+              else Ok (tree_state c d (set_claim st p cl))).
+    { intros cl _. rewrite step_tree, register_tree_decide, (tree_decide_new_set_claim _ _ _ _ _ ED). fold d.
+      destruct (is_prefix d p && offending c (p, cl)).
+      - destruct (negb (role_eqb (c_role cl) RStatic)); reflexivity.
+      - cbn [loose set_claim]. unfold remove_str.
+        rewrite (filter_filter_nil (is_prefix d) (fun x => negb (str_eqb p x)) (loose st) Hloose).
+        apply declare_static_files_nil. }
+    destruct (static_declarer_cases _ _ _ _ Edcl) as [[-> Hnone]|[t [-> [Hsome _]]]].
+    + (* no existing tree owns p *)
+      specialize (Hnone Hc2).
+      destruct (is_prefix d p) eqn:Edp.
+      * (* p lies under the new tree *)
+        rewrite (find_owner_tree_state_under c d st p Edp Hnone). cbn [bind].
+        destruct (creator_eqb c c2) eqn:Ecc.
+        -- (* the tree's own creator: handed over in both orders *)
+           apply creator_eqb_eq in Ecc. subst c2. cbn [bind].
+           destruct b.
+           ++ destruct (declare_file false c RStatic st p) as [st2|] eqn:Edf; cbn [accepted] in H2; [|discriminate H2].
+              destruct (declare_static_ok_inv _ _ _ _ Edf) as [-> [F3 [F4 [F5 _]]]]. cbn [bind].
+              assert (Ecd1 : check_decl (tree_state c d st) (WNode (CTree d)) p RStatic = Ok true).
+              { unfold check_decl. cbn [claims tree_state]. now rewrite (lookup_handover_none d _ p F5). }
+              rewrite Ecd1. cbn [bind]. rewrite declare_file_tree_static. unfold static_tail.
+              rewrite F3, F4. cbn [claims tree_state]. rewrite (lookup_handover_none d _ p F5).
+              rewrite (Hafter _ F5).
+              assert (Hoff : offending c (p, mkClaim RStatic c) = false).
+              { unfold offending. cbn. now rewrite creator_eqb_refl. }
+              rewrite Hoff. cbn [andb both].
+              unfold set_claim, tree_state, handover. cbn [claims loose trees steps globs map fst snd c_role].
+              now rewrite Edp.
+           ++ cbn [bind]. rewrite step_tree, register_tree_decide, ED. fold d.
+              rewrite Hloose, declare_static_files_nil.
+              pose proof (check_decl_false_held _ _ _ _ Ecd) as Hin.
+              assert (Ecd1 : check_decl (tree_state c d st) (WNode (CTree d)) p RStatic = Ok false).
+              { unfold check_decl. cbn [claims tree_state].
+                rewrite (lookup_handover_under d _ p _ (inv_uniq _ _ _ HI) Hin Edp). cbn [c_role c_by].
+                now rewrite creator_eqb_refl. }
+              rewrite Ecd1. reflexivity.
+        -- (* another creator: rejected with the tree/file message in both orders *)
+           cbn [bind].
+           assert (Hoff : offending c (p, mkClaim RStatic c2) = true).
+           { unfold offending. cbn. destruct (creator_eqb c2 c) eqn:E; [|reflexivity].
+             apply creator_eqb_eq in E. subst. now rewrite creator_eqb_refl in Ecc. }
+           destruct b.
+           ++ destruct (declare_file false c2 RStatic st p) as [st2|] eqn:Edf; cbn [accepted] in H2; [|discriminate H2].
+              destruct (declare_static_ok_inv _ _ _ _ Edf) as [-> [F3 [F4 [F5 _]]]]. cbn [bind].
+              rewrite (Hafter _ F5), Hoff. reflexivity.
+           ++ exfalso. pose proof (check_decl_false_held _ _ _ _ Ecd) as Hin.
+              assert (Hu : In (p, mkClaim RStatic c2) (filter (fun pc => is_prefix d (fst pc)) (claims st))).
+              { apply filter_In. split; auto. }
+              pose proof (filter_nil _ _ Hnooff _ Hu) as Hf. congruence.
+      * (* p is not under the new tree: independent *)
+        rewrite (find_owner_tree_state_not_under c d st p Edp), Hnone. cbn [bind].
+        destruct b.
+        -- destruct (declare_file false c2 RStatic st p) as [st2|] eqn:Edf; cbn [accepted] in H2; [|discriminate H2].
+           destruct (declare_static_ok_inv _ _ _ _ Edf) as [-> [F3 [F4 [F5 _]]]]. cbn [bind].
+           assert (Ecd1 : check_decl (tree_state c d st) (WNode c2) p RStatic = Ok true).
+           { unfold check_decl. cbn [claims tree_state]. now rewrite (lookup_handover_none d _ p F5). }
+           rewrite Ecd1. cbn [bind].
+           rewrite (declare_file_nontree_static c2 _ p Hc2)
+             by (now rewrite (find_owner_tree_state_not_under c d st p Edp)).
+           unfold static_tail. rewrite F3, F4. cbn [claims tree_state]. rewrite (lookup_handover_none d _ p F5).
+           rewrite (Hafter _ F5). cbn [andb both].
+           unfold set_claim, tree_state, handover. cbn [claims loose trees steps globs map fst snd].
+           now rewrite Edp.
+        -- cbn [bind]. rewrite step_tree, register_tree_decide, ED. fold d.
+           rewrite Hloose, declare_static_files_nil.
+           pose proof (check_decl_false_held _ _ _ _ Ecd) as Hin.
+           assert (Ecd1 : check_decl (tree_state c d st) (WNode c2) p RStatic = Ok false).
+           { apply check_decl_held.
+             - cbn [claims tree_state]. rewrite handover_keys. apply (inv_uniq _ _ _ HI).
+             - cbn [claims tree_state]. now apply handover_keep. }
+           rewrite Ecd1. reflexivity.
+    + (* an existing tree t of the same creator owns p: the new tree cannot contain p *)
+      destruct (find_owner_some _ _ _ _ _ Hsome) as [Hint Htp]. unfold probe in Htp.
+      assert (Edp : is_prefix d p = false).
+      { destruct (is_prefix d p) eqn:E; [|reflexivity]. exfalso.
+        destruct (prefix_comparable _ _ _ Htp E) as [Hx|Hx].
+        - pose proof (find_owner_none _ _ _ Hown t (in_tree_labels _ _ _ Hint)) as Hy.
+          unfold probe in Hy. congruence.
+        - assert (existsb (fun tc : str * creator => is_prefix d (fst tc)) (trees st) = true).
+          { apply existsb_exists. exists (t, c2). auto. }
+          congruence. }
+      rewrite (find_owner_tree_state_not_under c d st p Edp), Hsome. cbn [bind].
+      rewrite creator_eqb_refl. cbn [bind].
+      destruct b.
+      * destruct (declare_file false (CTree t) RStatic st p) as [st2|] eqn:Edf; cbn [accepted] in H2; [|discriminate H2].
+        destruct (declare_static_ok_inv _ _ _ _ Edf) as [-> [F3 [F4 [F5 _]]]]. cbn [bind].
+        assert (Ecd1 : check_decl (tree_state c d st) (WNode (CTree t)) p RStatic = Ok true).
+        { unfold check_decl. cbn [claims tree_state]. now rewrite (lookup_handover_none d _ p F5). }
+        rewrite Ecd1. cbn [bind]. rewrite declare_file_tree_static. unfold static_tail.
+        rewrite F3, F4. cbn [claims tree_state]. rewrite (lookup_handover_none d _ p F5).
+        rewrite (Hafter _ F5), Edp. cbn [andb both].
+        unfold set_claim, tree_state, handover. cbn [claims loose trees steps globs map fst snd].
+        now rewrite Edp.
+      * cbn [bind]. rewrite step_tree, register_tree_decide, ED. fold d.
+        rewrite Hloose, declare_static_files_nil.
+        pose proof (check_decl_false_held _ _ _ _ Ecd) as Hin.
+        assert (Ecd1 : check_decl (tree_state c d st) (WNode (CTree t)) p RStatic = Ok false).
+        { apply check_decl_held.
+          - cbn [claims tree_state]. rewrite handover_keys. apply (inv_uniq _ _ _ HI).
+          - cbn [claims tree_state]. now apply handover_keep. }
+        rewrite Ecd1. reflexivity.
+Qed.
+
+End Commute4.
+
+Section Commute5.
+
+Variable gm : str -> str -> bool.
+
+Lemma glob_check_app gs1 gs2 lbl ps :
+  glob_check gm (gs1 ++ gs2) lbl ps =
+  match glob_check gm gs1 lbl ps with Ok _ => glob_check gm gs2 lbl ps | Err m => Err m end.
+Proof.
+  induction gs1 as [|g gs IH]; cbn; [reflexivity|].
+  destruct (find_first (gm (g_pat g)) ps); [reflexivity|]. exact IH.
+Qed.
+
+Definition prodf (pat : str) (pc : str * claim) : bool :=
+  negb (role_eqb (c_role (snd pc)) RStatic) && gm pat (fst pc).
+
+(* register_nglob when it scans the products (gr = true) *)
+Definition glob_sem (s pat : str) (ms : list str) (st : state) : res state :=
+  bind (require_step st (CStep s)) (fun _ =>
+  let ms' := sort_uniq (filter (gm pat) ms) in
+  match min_entry (filter (prodf pat) (claims st)) with
+  | Some (p, cl) => Err (MGlobProduct pat s p (creator_label (c_by cl)))
+  | None =>
+      match find_first (is_prefix stepup_prefix) ms' with
+      | Some p => Err (MStepupGlob pat p)
+      | None => Ok (mkState (claims st) (loose st) (trees st) (steps st)
+                            (globs st ++ [mkGlob s pat ms']))
+      end
+  end).
+
+Lemma glob_spec ow s pat ms st : step gm ow true st (RqGlob s pat ms) = glob_sem s pat ms st.
+Proof. reflexivity. Qed.
+
+(* Glob pattern versus amended output / volatile output, for the variant of register_nglob that
+   scans the products (the repair of D3): rejected in both orders with the same structured
+   message (iff the regex matches the product), or accepted in both orders with the same state. *)
+Theorem glob_product_commute st sg pat ms s r p :
+  Inv gm true st -> product_role r = true ->
+  accepted (step gm false true st (RqGlob sg pat ms)) = true ->
+  accepted (step gm false true st (amend1 s r p)) = true ->
+  both (run gm false true st [RqGlob sg pat ms; amend1 s r p])
+       (run gm false true st [amend1 s r p; RqGlob sg pat ms]).
+Proof.
+  intros HI Hr H1 H2. rewrite !run2. rewrite (amend1_spec gm true s r p st Hr) in *.
+  rewrite !glob_spec in *.
+  assert (Hnr : role_eqb r RStatic = false) by (destruct r; try discriminate; reflexivity).
+  (* the pattern on st *)
+  unfold glob_sem in H1 at 1.
+  destruct (require_step st (CStep sg)) as [[]|] eqn:Erg; cbn [bind accepted] in H1; [|discriminate H1].
+  cbv zeta in H1.
+  destruct (min_entry (filter (prodf pat) (claims st))) as [[q cq]|] eqn:Emin; [cbn in H1; discriminate H1|].
+  destruct (find_first (is_prefix stepup_prefix) (sort_uniq (filter (gm pat) ms))) eqn:Esu;
+    [cbn in H1; discriminate H1|].
+  apply min_entry_none in Emin.
+  set (g := mkGlob sg pat (sort_uniq (filter (gm pat) ms))) in *.
+  set (stg := mkState (claims st) (loose st) (trees st) (steps st) (globs st ++ [g])).
+  assert (Hg : glob_sem sg pat ms st = Ok stg).
+  { unfold glob_sem. rewrite Erg. cbn [bind]. cbv zeta. rewrite Emin. cbn [min_entry]. rewrite Esu. reflexivity. }
+  rewrite Hg. cbn [bind].
+  (* the amendment on st *)
+  unfold amend1_sem in H2 at 1.
+  destruct (require_step st (CStep s)) as [[]|] eqn:Ers; cbn [bind accepted] in H2; [|discriminate H2].
+  destruct (check_decl st (WNode (CStep s)) p r) as [b|] eqn:Ecd; cbn [bind accepted] in H2; [|discriminate H2].
+  rewrite (amend1_spec gm true s r p stg Hr).
+  unfold amend1_sem.
+  change (require_step stg (CStep s)) with (require_step st (CStep s)).
+  change (check_decl stg (WNode (CStep s)) p r) with (check_decl st (WNode (CStep s)) p r).
+  rewrite Ers, Ecd. cbn [bind].
+  destruct b.
+  - (* a new product *)
+    destruct (glob_check gm (globs st) s [p]) as [[]|] eqn:Egc; cbn [bind accepted] in H2; [|discriminate H2].
+    destruct (declare_file false (CStep s) r st p) as [st2|] eqn:Edf; cbn [accepted] in H2; [|discriminate H2].
+    destruct (declare_file_ok_inv _ _ _ _ _ (step_not_tree s) Edf) as [-> [F1 [F2 [F3 [F4 [F5 F6]]]]]].
+    cbn [bind]. cbn [globs stg]. rewrite glob_check_app, Egc.
+    cbn [glob_check g_pat g_step g find_first].
+    rewrite glob_spec. unfold glob_sem.
+    change (require_step (set_claim st p (mkClaim r (CStep s))) (CStep sg)) with (require_step st (CStep sg)).
+    rewrite Erg. cbn [bind]. cbv zeta. cbn [claims set_claim filter]. unfold prodf at 1. cbn [fst snd c_role].
+    rewrite Hnr. cbn [negb andb].
+    destruct (gm pat p) eqn:Em.
+    + (* the regex matches the product: rejected in both orders, same message *)
+      rewrite Emin. cbn [min_entry c_by creator_label both]. reflexivity.
+    + rewrite Emin. cbn [min_entry bind]. rewrite Esu.
+      (* declare_file does not look at the globs *)
+      unfold declare_file in *. rewrite F1 in *. cbn [bind] in *.
+      change (find_owner false stg p) with (find_owner false st p). rewrite F2. cbn [bind].
+      rewrite F3, F4. cbn [claims stg]. rewrite F5. cbn [loose stg]. rewrite F6.
+      cbn [both]. reflexivity.
+  - (* the product is already held: the scan of the pattern already passed it *)
+    cbn [bind]. rewrite glob_spec, Hg. reflexivity.
+Qed.
+
+End Commute5.
